@@ -263,6 +263,8 @@ pub fn low_set(n: usize) -> u64 {
 /// Behavior is undefined if `n > 64`.
 #[inline]
 pub unsafe fn low_set_unchecked(n: usize) -> u64 {
+    #[cfg(feature = "verif-bounds")]
+    if n > WORD_BITS { crate::verif::oob("bits::low_set_unchecked", n, WORD_BITS + 1); }
     *LOW_SET.get_unchecked(n)
 }
 
@@ -291,6 +293,8 @@ pub fn high_set(n: usize) -> u64 {
 /// Behavior is undefined if `n > 64`.
 #[inline]
 pub unsafe fn high_set_unchecked(n: usize) -> u64 {
+    #[cfg(feature = "verif-bounds")]
+    if n > WORD_BITS { crate::verif::oob("bits::high_set_unchecked", n, WORD_BITS + 1); }
     *HIGH_SET.get_unchecked(n)
 }
 
@@ -353,6 +357,8 @@ pub fn reverse_low(n: u64, bits: usize) -> u64 {
 /// Behavior is undefined if `rank >= n.count_ones()`.
 #[inline]
 pub unsafe fn select(n: u64, rank: usize) -> usize {
+    #[cfg(feature = "verif-bounds")]
+    if rank >= n.count_ones() as usize { crate::verif::oob("bits::select", rank, n.count_ones() as usize); }
     // The first argument to `__pdep_u64` has a single 1 at bit offset `rank`. The
     // number `n` we are interested in is used as a mask. PDEP takes low-order bits
     // from the value and places them to the offsets specified by the mask. In
@@ -360,6 +366,8 @@ pub unsafe fn select(n: u64, rank: usize) -> usize {
     // `rank` in `n`. We get the offset by counting the trailing zeros.
     #[cfg(all(target_arch = "x86_64", target_feature = "bmi2"))]
     {
+        #[cfg(feature = "verif-probes")]
+        crate::verif::hit(crate::verif::probe::SELECT_PDEP);
         let pos = core::arch::x86_64::_pdep_u64(1u64 << rank, n);
         pos.trailing_zeros() as usize
     }
@@ -367,6 +375,8 @@ pub unsafe fn select(n: u64, rank: usize) -> usize {
     // This is borrowed from SDSL.
     #[cfg(not(all(target_arch = "x86_64", target_feature = "bmi2")))]
     {
+        #[cfg(feature = "verif-probes")]
+        crate::verif::hit(crate::verif::probe::SELECT_TABLE);
         // Each byte in `cumulative` will contain the cumulative number of set bits
         // in bytes up to and including that byte in `n`.
         let cumulative = n - ((n >> 1) & 0x5555_5555_5555_5555);
@@ -615,6 +625,8 @@ pub unsafe fn write_int<T: IndexMut<usize, Output = u64>>(array: &mut T, bit_off
     let value = value & low_set(width);
     let (index, offset) = split_offset(bit_offset);
 
+    #[cfg(feature = "verif-probes")]
+    crate::verif::hit(if offset + width <= WORD_BITS { crate::verif::probe::WRITE_INT_SINGLE } else { crate::verif::probe::WRITE_INT_STRADDLE });
     if offset + width <= WORD_BITS {
         array[index] &= high_set_unchecked(WORD_BITS - width - offset) | low_set_unchecked(offset);
         array[index] |= value << offset;
@@ -656,6 +668,8 @@ pub unsafe fn read_int<T: Index<usize, Output = u64>>(array: &T, bit_offset: usi
     let (index, offset) = split_offset(bit_offset);
     let first = array[index] >> offset;
 
+    #[cfg(feature = "verif-probes")]
+    crate::verif::hit(if offset + width <= WORD_BITS { crate::verif::probe::READ_INT_SINGLE } else { crate::verif::probe::READ_INT_STRADDLE });
     if offset + width <= WORD_BITS {
         first & low_set_unchecked(width)
     } else {
